@@ -405,7 +405,8 @@ The full statement
 
 (no `keepsTail`) is believed true and checked by correspondence (`wredun` cases with `fvs` / `fis`
 deltas on three-LOD models): in the remaining case the written buffer lacks only the zero index
-padding behind the last mesh of LOD 2 (`c07_write_redundant_bytes`), which the reader never reads.
+padding behind the last mesh of LOD 2 (`c07_write_redundant_bytes`), which the reader never reads;
+`c07_write_redundant_reparse` proves it up to "the re-parse returns".
 "partial" also for the excluded classes of the recorded findings, as in `c07_write_parse`. -/
 theorem c07_write_redundant_partial (m : AbstractModel) (h : WF m = true) (hcan : Canonical m = true)
     (ρ : Redundant) (hend : ρ.keepsTail m = true) (v : View) (hv : view m = some v) :
@@ -416,6 +417,20 @@ theorem c07_write_redundant_partial (m : AbstractModel) (h : WF m = true) (hcan 
   obtain ⟨buf, hw, hb, hp⟩ := write_redundant m h hcan ρ hend v hv
   exact ⟨_, buf, _, parse_encodeR m h (canonical_noWeightsByte4 m hcan) ρ v hv, hw, hb, hp, rfl, rfl,
     rfl, rfl⟩
+
+/-- **For every `ρ`, without `keepsTail`**: the model `m0` parsed from `encodeMdlR m ρ` is written,
+and the re-parse of the written buffer, **if it returns at all, returns `m0`** — the view of `m`,
+the header records as stored.  Whatever the unread copies hold, they cannot make the reader report
+a different model after a write; what `c07_write_redundant_partial` adds under `keepsTail` is that
+the re-parse does return.  (Outside `keepsTail` the written buffer is the file minus trailing zero
+index padding, `c07_write_redundant_bytes`; reads are monotone in the file, `afterHeaders_le`.) -/
+theorem c07_write_redundant_reparse (m : AbstractModel) (h : WF m = true) (hcan : Canonical m = true)
+    (ρ : Redundant) (v : View) (hv : view m = some v) :
+    ∃ m0 buf, fromExisting (encodeMdlR m ρ) = .ok m0 ∧ writeToBuffer m0 = .ok buf ∧
+      ∀ m1, fromExisting buf = .ok m1 → m1 = m0 ∧ m1.view = v := by
+  obtain ⟨buf, hw, hp⟩ := write_redundant_reparse m h hcan ρ v hv
+  exact ⟨_, buf, parse_encodeR m h (canonical_noWeightsByte4 m hcan) ρ v hv, hw,
+    fun m1 h1 => ⟨hp m1 h1, by rw [hp m1 h1]; rfl⟩⟩
 
 /-- with fewer than three LODs in use `keepsTail` holds for every `ρ`: the third LOD of a canonical
 model is empty, so its index offset in the file header — a copy the reader uses, hence kept by
